@@ -719,3 +719,17 @@ def transform_tree(src, dst, kind):
         foreign = _foreign_names()
         _ExplicitDefaults.sigs = {k: v for k, v in _package_defaults(src).items() if k not in foreign}
     _transform_tree_kw(src, dst, kind)
+
+
+class _NotCompare(ast.NodeTransformer):
+    """`a != b` written `not a == b`, `a not in b` written `not a in b`, `a is not b` written `not a is b` (single comparisons)"""
+    POS = {ast.NotEq: ast.Eq, ast.NotIn: ast.In, ast.IsNot: ast.Is}
+
+    def visit_Compare(self, node):
+        self.generic_visit(node)
+        if len(node.ops) == 1 and type(node.ops[0]) in self.POS:
+            return ast.copy_location(ast.UnaryOp(op=ast.Not(), operand=ast.Compare(left=node.left, ops=[self.POS[type(node.ops[0])]()], comparators=node.comparators)), node)
+        return node
+
+
+TRANSFORMS["not_compare"] = _NotCompare
